@@ -729,3 +729,38 @@ pub fn stub_expr_to_source_with_scope_cut(_e: &SpannedExpr, _scope: &indexmap::I
 pub fn stub_parse_function_source_cut(_source: &str) -> anyhow::Result<blots_core::values::SerializableLambdaDef> {
     panic!("verif-cut: function-source parsing was reached while reading plain data")
 }
+
+/// `FunctionDef::call` for the C13 harness family: the callee must be one of five small built-ins
+/// and is dispatched on a *constant* selector to the real `BuiltInFunction::call` (the real
+/// `FunctionDef::call` reaches, for CBMC, the lambda branch and all ~70 built-ins on every
+/// callback, because the `FunctionDef` tag sits in an enum nested in an `Option` payload).  What
+/// the stub drops - the depth guard, the call statistics, the error context - is decided under
+/// C18 / not claimed; the arity check is kept.
+pub fn stub_function_def_call_small_builtins(
+    this: &blots_core::functions::FunctionDef,
+    _this_value: Value,
+    args: Vec<Value>,
+    heap: Rc<RefCell<Heap>>,
+    bindings: Rc<Environment>,
+    call_depth: usize,
+    source: &str,
+) -> Result<Value, blots_core::error::RuntimeError> {
+    use blots_core::functions::BuiltInFunction as B;
+    use blots_core::functions::FunctionDef;
+    match this {
+        FunctionDef::BuiltIn(b) => {
+            if !b.arity().can_accept(args.len()) {
+                return Err(blots_core::error::RuntimeError::from("wrong number of arguments"));
+            }
+            match b {
+                B::Abs => B::Abs.call(args, heap, bindings, call_depth, source),
+                B::Min => B::Min.call(args, heap, bindings, call_depth, source),
+                B::Floor => B::Floor.call(args, heap, bindings, call_depth, source),
+                B::ToBool => B::ToBool.call(args, heap, bindings, call_depth, source),
+                B::Len => B::Len.call(args, heap, bindings, call_depth, source),
+                _ => panic!("verif-cut: a callee outside the five built-ins of the C13 harness family"),
+            }
+        }
+        FunctionDef::Lambda(_) => panic!("verif-cut: lambda callee in the C13 harness family"),
+    }
+}
